@@ -34,7 +34,7 @@ def cfg_make(wrapper='interval', size=(2,), levy='none', cache_size=45, dt=None,
 
 def cfg_key(cfg):
     return (f"{cfg['wrapper']}|{cfg['size']}|{cfg['levy']}|c{cfg['cache_size']}|dt{cfg['dt']}|tol{cfg['tol']}|"
-            f"hw{int(cfg['halfway'])}|{cfg['given']}|{cfg['dtype']}|{cfg['via']}")
+            f"hw{int(cfg['halfway'])}|{cfg['given']}|{cfg['dtype']}|{cfg['via']}|t0{cfg['t0']}|t1{cfg['t1']}")
 
 
 def have_H(cfg):
